@@ -103,6 +103,9 @@ class FortranDifferential(BoundedCheck):
         # a sign straight after an operator binds as in Python (`X * -3.0 ** 2.0` is -(3 ** 2) * X)
         for sc in ('Y = X * -3.0 ** 2.0', 'Y = X ** -2.0 ** 2.0 + W', 'Y = W - -2.0 * X', 'Y = X / -4.0 ** U + -1.5'):
             yield {'script': sc, 'seed': 3, 'kind': 'safe'}
+        # max / min of more than two arguments (Fortran's intrinsics and Python's built-ins both take any number)
+        for sc in ('Y = max(X, W, 1.5)', 'Y = min(X, W, U, 2.0) + max(X, W)', 'Y = max(min(X, W, U), 0.5, W - X)'):
+            yield {'script': sc, 'seed': 4, 'kind': 'safe'}
         # declarations of every size (the row-number lists are wrapped over continuation lines): text only, no compilation, except a few sizes
         for nvars in range(1, 131):
             terms = ' + '.join([f'X{i}' for i in range(nvars)] + [f'{{p{i}}}' for i in range(nvars // 3)])
@@ -214,6 +217,12 @@ class FortranDifferential(BoundedCheck):
             if off and not (Py.LAGS <= (t % n) + off <= n - 1 - Py.LEADS) and 0 <= (t % n) + off < n:
                 pass
             compare('solve_t', lambda m, t=t: m.solve_t(t, min_iter=mi, max_iter=ma, tol=tol, offset=off, failures=fl, errors=er), (t, mi, ma, tol, off, fl, er))
+        # offsets at the very edge of the span, for both spellings of t: last / first period inside, one past the end / one before the start
+        for t in (t0, t0 - n):
+            for off in (n - 1 - (t % n), n - (t % n), -(t % n), -(t % n) - 1):
+                if off:
+                    res.cover('offset')
+                    compare('solve_t', lambda m, t=t, off=off: m.solve_t(t, max_iter=6, tol=1e-10, offset=off, failures='ignore', errors='ignore'), (t, 'edge-offset', off))
         # a period that is re-solved from a solved neighbour (offset) although its own values are stale: seeding happens before the first comparison
         def reseed(m):
             for nm in m.names:
